@@ -1539,3 +1539,105 @@ Lemma cds_equal_keys_repaired :
 Proof.
   exists [mkPart 10 40 1], [mkPart 10 40 (-1)]. repeat split; try reflexivity. discriminate.
 Qed.
+
+(* ================= optional qualifiers ================= *)
+(* written iff the attribute is not None, read iff the key is present: every value comes back, whatever its
+   truthiness - provided the text form of the value reads back as the value *)
+Lemma optq_roundtrip : forall (A : Type) (fmt : A -> str) (parse : str -> res A),
+  (forall x, parse (fmt x) = Ok x) -> forall v : option A, optq_read parse (optq_write fmt v) = Ok v.
+Proof.
+  intros A fmt parse Hinv v. destruct v as [x|]; simpl; [rewrite Hinv|]; reflexivity.
+Qed.
+
+Lemma optq_int_roundtrip : forall v : option Z, optq_read parse_int (optq_write str_of_int v) = Ok v.
+Proof. apply optq_roundtrip. exact parse_int_str_of_int. Qed.
+
+Lemma codon_parse_fmt : forall v, codon_parse (codon_fmt v) = Ok v.
+Proof.
+  intro v. unfold codon_parse, codon_fmt. rewrite parse_int_str_of_int. simpl. f_equal. lia.
+Qed.
+Lemma optq_codon_roundtrip : forall v : option Z, optq_read codon_parse (optq_write codon_fmt v) = Ok v.
+Proof. apply optq_roundtrip. exact codon_parse_fmt. Qed.
+
+(* the decidable form used at run time is sound: when it accepts what an implementation wrote, reading that gives the
+   attribute back *)
+Lemma optq_spec_sound : forall (A : Type) (eqb : A -> A -> bool) (parse : str -> res A),
+  (forall x y, eqb x y = true -> x = y) ->
+  forall v q, optq_spec_ok eqb parse v q = true -> optq_read parse q = Ok v.
+Proof.
+  intros A eqb parse Heq v q H. unfold optq_spec_ok in H.
+  destruct (optq_read parse q) as [[x|]|k]; destruct v as [y|]; try discriminate; try reflexivity.
+  apply Heq in H. subst. reflexivity.
+Qed.
+Lemma optq_spec_complete : forall (A : Type) (eqb : A -> A -> bool) (fmt : A -> str) (parse : str -> res A),
+  (forall x, eqb x x = true) -> (forall x, parse (fmt x) = Ok x) ->
+  forall v, optq_spec_ok eqb parse v (optq_write fmt v) = true.
+Proof.
+  intros A eqb fmt parse Hr Hinv v. unfold optq_spec_ok. rewrite (optq_roundtrip A fmt parse Hinv v).
+  destruct v; auto.
+Qed.
+
+(* the same writer with a truthiness test (`if self.evalue:`), as a seeded change made it: not the model of the code,
+   only the subject of the refutation below *)
+Definition optq_write_truthy (fmt : Z -> str) (v : option Z) : qual :=
+  match v with Some x => if x =? 0 then None else Some [fmt x] | None => None end.
+Lemma optq_truthy_loses_zero :
+  exists v : option Z, optq_read parse_int (optq_write_truthy str_of_int v) <> Ok v /\
+                       optq_read parse_int (optq_write str_of_int v) = Ok v /\
+                       optq_write_truthy str_of_int v = optq_write_truthy str_of_int None.
+Proof. exists (Some 0). repeat split; try reflexivity. discriminate. Qed.
+
+(* string attributes written under a truthiness test and read with `or None`: everything but the empty string *)
+Lemma truthy_roundtrip : forall v : option str, v <> Some [] -> truthy_read (truthy_write v) = Ok v.
+Proof.
+  intros v H. destruct v as [[|c s]|]; simpl; try reflexivity. exfalso. apply H. reflexivity.
+Qed.
+Lemma truthy_empty_lost :
+  exists v : option str, truthy_read (truthy_write v) <> Ok v /\ truthy_read (truthy_write v) = Ok None /\
+                         truthy_write v = truthy_write None.
+Proof. exists (Some []). repeat split; try reflexivity. discriminate. Qed.
+Lemma truthy_spec_sound : forall v q, v <> Some [] -> truthy_spec_ok v q = true -> truthy_read q = Ok v.
+Proof.
+  intros v q Hv H. unfold truthy_spec_ok in H.
+  destruct v as [[|c s]|].
+  - exfalso. apply Hv. reflexivity.
+  - destruct (truthy_read q) as [[x|]|k]; try discriminate.
+    apply zlist_eqb_eq in H. subst. reflexivity.
+  - destruct (truthy_read q) as [[x|]|k]; try discriminate. reflexivity.
+Qed.
+
+Lemma optq_witnesses :
+  optq_read parse_int (optq_write str_of_int (Some 0)) = Ok (Some 0) /\
+  optq_write str_of_int (Some 0) = Some [[48]] /\
+  optq_read codon_parse (optq_write codon_fmt (Some 0)) = Ok (Some 0) /\
+  optq_write codon_fmt (Some 0) = Some [[49]] /\
+  optq_read text_ok (optq_write id_str (Some [48; 46; 48; 48; 69; 43; 48; 48])) = Ok (Some [48; 46; 48; 48; 69; 43; 48; 48]) /\
+  optq_read parse_int (optq_write str_of_int None) = Ok None.
+Proof. repeat split; reflexivity. Qed.
+
+(* ================= the comparison on the mixed list is not transitive ================= *)
+(* circular record of 900 bases: the protocluster join{[775:900](+), [0:19](+)}, the sig_peptide
+   join{[860:900](+), [0:40](+)} and the source feature [0:900](+) *)
+Definition W_mix_A : mfeat := mkMfeat 2 [mkPart 775 900 1; mkPart 0 19 1].
+Definition W_mix_g : mfeat := mkMfeat 0 [mkPart 860 900 1; mkPart 0 40 1].
+Definition W_mix_S : mfeat := mkMfeat 1 [mkPart 0 900 1].
+Lemma mixed_lt_not_transitive :
+  exists a b c, mixed_lt a b = true /\ mixed_lt b c = true /\ mixed_lt a c = false /\ mixed_lt c a = false /\
+                has_bad_triple [c; b; a] = true.
+Proof. exists W_mix_A, W_mix_g, W_mix_S. repeat split; vm_compute; reflexivity. Qed.
+(* without the mirrored short cut the collection is less than the source by its key: the triple is in order *)
+Lemma mixed_witness_keys :
+  C04.Model.cmp_key (-1) (mloc W_mix_A) = Ok (-125, -144) /\ C04.Model.cmp_key 1 (mloc W_mix_g) = Ok (-40, 80) /\
+  C04.Model.cmp_key 1 (mloc W_mix_S) = Ok (0, 900) /\ contains (mloc W_mix_S) (mloc W_mix_A) = true /\
+  contains (mloc W_mix_A) (mloc W_mix_S) = false.
+Proof. repeat split; vm_compute; reflexivity. Qed.
+(* soundness of the class test: it only answers true on a list that holds such a triple *)
+Lemma has_bad_triple_sound : forall l, has_bad_triple l = true ->
+  exists a b c, In a l /\ In b l /\ In c l /\ mixed_lt a b = true /\ mixed_lt b c = true /\ mixed_lt a c = false.
+Proof.
+  intros l H. unfold has_bad_triple in H. apply existsb_exists in H. destruct H as [a [Ha H]].
+  apply existsb_exists in H. destruct H as [b [Hb H]]. apply existsb_exists in H. destruct H as [c [Hc H]].
+  apply filter_In in Hb. apply filter_In in Hc. destruct Hb as [Hb _]. destruct Hc as [Hc _].
+  unfold bad_triple in H. repeat (apply andb_true_iff in H; destruct H as [H ?]).
+  exists a, b, c. repeat split; try assumption. apply negb_true_iff. assumption.
+Qed.
